@@ -13,8 +13,12 @@ TIsUnary(op) == FALSE
 RECURSIVE ValStr(_)
 RECURSIVE ValEls(_, _)
 ValEls(els, i) == IF i > Len(els) THEN "" ELSE (IF i > 1 THEN "," ELSE "") \o ValStr(els[i]) \o ValEls(els, i + 1)
+\* (the synthetic operators vuv / vnv have no result: the VM's nil takes the operand's place)
 ValStr(t) ==
     CASE t.k = "lit" -> t.v
+      [] t.k = "un" /\ t.op = "vuv" -> "nil"
+      [] t.k = "nul" /\ t.op = "vnv" -> "nil"
+      [] t.k = "nul" -> "[\"" \o t.op \o "\"]"
       [] t.k = "un" -> "[\"" \o t.op \o "\"," \o ValStr(t.x) \o "]"
       [] t.k = "bin" -> "[\"" \o t.op \o "\"," \o ValStr(t.l) \o "," \o ValStr(t.r) \o "]"
       [] t.k = "arr" -> "[" \o ValEls(t.els, 1) \o "]"
